@@ -153,7 +153,7 @@ impl Check for C26 {
         ]
     }
     fn plan(&self, tier: Tier) -> Plan {
-        Plan { cases: if tier == Tier::Quick { 60_000 } else { 600_000 }, max_tape: 6, min_slots: 4, max_slots: 40, shard_cases: if tier == Tier::Quick { 3750 } else { 12_500 }, max_shrink_iters: 4000, ..Plan::default() }
+        Plan { cases: if tier == Tier::Quick { 240_000 } else { 2_400_000 }, max_tape: 6, min_slots: 4, max_slots: 40, shard_cases: if tier == Tier::Quick { 7500 } else { 25_000 }, max_shrink_iters: 4000, ..Plan::default() }
     }
     fn run_case(&self, t: &mut Tape, _env: &Env) -> CaseOut {
         let mut out = CaseOut::default();
